@@ -60,8 +60,10 @@ def vsizes(M, tier, few=False):
     if few:
         return [1, D + 1, D + E + 1] if M <= 2 else [1, D + 1]
     base = [1, D, D + 1]
-    if tier == 'thorough' or M <= 2:
+    if tier == 'thorough':
         base += [D + E, D + E + 1]
+    elif M <= 2:
+        base += [D + E + 1]
     if tier == 'thorough' and M >= 4:
         base += [D + 2 * E + 1]
     return base
